@@ -103,12 +103,12 @@ func signingPrivateKey(k *refmodel.SignKey) (types.SigningPrivateKey, error) {
 
 // constructed is what a library signing constructor produced.
 type constructed struct {
-	kind     string
-	verify   func() error
-	bytes    func() ([]byte, error)
-	idSig    int
-	idKey    []byte
-	skipped  string // non-empty: the constructor refused (not a C06 matter)
+	kind    string
+	verify  func() error
+	bytes   func() ([]byte, error)
+	idSig   int
+	idKey   []byte
+	skipped string // non-empty: the constructor refused (not a C06 matter)
 }
 
 func libDestination(id *refmodel.Identity) (destination.Destination, error) {
